@@ -10,6 +10,9 @@
 (*          Unsubscribe write, Iterate (delivery) and GetClientStats read    *)
 (*   queue  a session queue's mutex (mem.Queue: Add, Read, Remove notify the *)
 (*          statistics while holding it)                                     *)
+(*   limiter the packet-id limiter of a connection (packetIDLimiter.cond.L):  *)
+(*          a full queue drops an expired in-flight message inside Add and    *)
+(*          releases its packet id (NotifyDropped -> pl.release)              *)
 (*   stats  statsManager.clientMu (one mutex for the per-client statistics   *)
 (*          of ALL clients: every packet read or written takes it)           *)
 (*                                                                         *)
@@ -32,9 +35,10 @@
 EXTENDS Integers, Sequences, FiniteSets, TLC
 
 CONSTANTS TouchReadsStore, ReadHoldsMu,
+          PollLimiterFirst,  \* pollInflights takes the packet-id limiter's lock before it reads the queue (read from the source)
           Kinds            \* the paths taken part in this run: subset of DOMAIN Path
 
-Locks == {"srv", "subs", "queue", "stats"}
+Locks == {"srv", "subs", "queue", "stats", "limiter"}
 RW == {"subs"}
 
 L(l) == <<"L", l>>
@@ -45,7 +49,7 @@ U(l) == <<"U", l>>
 Path ==
   [ \* PUBLISH handled: srv.mu, Iterate under the store's read lock, per subscriber queue.Add (queue mutex) which notifies
     \* the statistics (clientMu)
-    deliver   |-> <<L("srv"), R("subs"), L("queue"), L("stats"), U("stats"), U("queue"), U("subs"), U("srv")>>,
+    deliver   |-> <<L("srv"), R("subs"), L("queue"), L("stats"), U("stats"), L("limiter"), U("limiter"), U("queue"), U("subs"), U("srv")>>,
     \* SUBSCRIBE / UNSUBSCRIBE of a client: the store's write lock (no srv.mu)
     subscribe |-> <<L("subs"), U("subs")>>,
     \* a packet read or written for a client whose statistics do not exist yet (every new connection: CONNACK)
@@ -55,6 +59,9 @@ Path ==
                   ELSE <<L("stats"), U("stats"), R("subs"), U("subs")>>,
     \* pollMessageHandler: queue.Read notifies the statistics under the queue mutex
     poll      |-> <<L("queue"), L("stats"), U("stats"), U("queue")>>,
+    \* pollInflights (a resumed session): ReadInflight under the queue mutex, the packet ids are marked under the limiter's lock
+    pollinfl  |-> IF PollLimiterFirst THEN <<L("limiter"), L("queue"), U("queue"), U("limiter")>>
+                  ELSE <<L("queue"), U("queue"), L("limiter"), U("limiter")>>,
     \* CONNECT with Clean Start on an existing session: srv.mu, UnsubscribeAll (store write lock), sessionTerminated (clientMu)
     register  |-> <<L("srv"), L("subs"), U("subs"), L("stats"), U("stats"), U("srv")>> ]
 
